@@ -13,6 +13,11 @@ func marshal(p *lang.Process, v any) ([]byte, error) {
 			break
 		}
 
+		if len(t) == 0 {
+			// no heading row: an empty table is an empty list of records
+			return json.Marshal([]map[string]any{}, p.Stdout.IsTTY())
+		}
+
 		var i int
 		table := make([]map[string]any, len(t)-1)
 		err := types.Table2Map(t, func(m map[string]any) error {
